@@ -370,6 +370,9 @@ def replay_assoc(vals, A, B):
     return bool(bad), "; ".join(bad) or "ok"
 
 
+REPLAY_DIRECT = True
+
+
 def replay_file(rec):
     A = SymTraj("a", sum(1 for k in rec["witness"] if k.startswith("a_t")), unit_quat=False)
     B = SymTraj("b", sum(1 for k in rec["witness"] if k.startswith("b_t")), unit_quat=False)
